@@ -362,7 +362,7 @@ fn ray_polygon_cases(cw: &mut CaseWriter, rng: &mut Rng, n: usize) {
 fn reveal_cases(cw: &mut CaseWriter, rng: &mut Rng, n: usize) {
     for k in 0..n {
         let mut r = rng.fork(5000 + k as u64);
-        let tilt = if k % 3 == 0 { *r.pick(&[0.0f32, 30.0, 60.0, 120.0, 180.0]) } else { 90.0 };
+        let tilt = if k % 3 == 0 || k % 8 == 1 { *r.pick(&[0.0f32, 30.0, 60.0, 120.0, 180.0]) } else { 90.0 };
         let (a, h) = (r.f(3.0, 8.0, 1), r.f(2.5, 4.0, 1));
         let mut m = Model::default();
         let sp = Space { height: 3.0, ..Default::default() };
@@ -372,7 +372,8 @@ fn reveal_cases(cw: &mut CaseWriter, rng: &mut Rng, n: usize) {
                 tilt,
                 azimuth: r.f(-180.0, 180.0, 0),
                 position: Some(point![r.f(-5.0, 5.0, 1), r.f(-5.0, 5.0, 1), r.f(0.0, 6.0, 1)]),
-                polygon: vec![point![0.0, 0.0], point![a, 0.0], point![a, h], point![0.0, h]],
+                // the outline is listed anticlockwise, or (one case in four) clockwise: the reveals depend on the pose only
+                polygon: if k % 4 == 1 { vec![point![0.0, 0.0], point![0.0, h], point![a, h], point![a, 0.0]] } else { vec![point![0.0, 0.0], point![a, 0.0], point![a, h], point![0.0, h]] },
             },
             ..Default::default()
         };
